@@ -1,0 +1,9 @@
+//go:build verif
+
+package blockdb
+
+// VerifNewMapIndex exposes the writer-side index so that a database can also be reopened with it.
+func VerifNewMapIndex() Index { return newMapIndex() }
+
+// VerifNewFixedKeyArrayIndex exposes the reader-side index (the one Open installs by default).
+func VerifNewFixedKeyArrayIndex(keyLength int8) Index { return newFixedKeyArrayIndex(keyLength) }
